@@ -827,6 +827,11 @@ func TestC05(t *testing.T) {
 	})
 
 	// (d) unbinding a fid while an operation on it is inside the backend:
+	// (h) connections that end in the middle of schedules the harness owns (engine
+	// of C07): the teardown's Close calls are released one at a time among the
+	// backend calls of the other connections' requests
+	schedSubCheck(h, env.PerShard(env.Pick(1600, 60000)), []string{"io", "io", "create", "fnew", "f"}, keepC05)
+
 	// (g) backend failures: an error or a panic at every backend call of a session
 	// in turn (the engine of C15), judged here by the File lifecycle alone - the
 	// Close that fails included
